@@ -704,7 +704,7 @@ func (e *exec) prepare(f []string) (call func(), finish finishFn) {
 			}
 			var ids []string
 			for id := range reg.Export() {
-				ids = append(ids, id)
+				ids = append(ids, strings.ReplaceAll(id, s.root[1:], s.root[len(s.scope)+1:])) // (names built from the root's path: shown virtual)
 			}
 			sort.Strings(ids)
 			return "acc ids " + hxList(ids), false
